@@ -12,7 +12,7 @@
    the class attribute; mode callbacks (on_enable/on_iteration/on_disable) do
    not raise (that fault space is C07's); time is the integer microsecond
    reading of the FPGA clock. *)
-From Coq Require Import String List ZArith Bool.
+From Coq Require Import String Ascii List ZArith Bool.
 Import ListNotations.
 Open Scope string_scope.
 Open Scope list_scope.
@@ -212,6 +212,46 @@ Definition discover (fms : bool) (p : package) : outcome :=
     | (st, None) => finish_init fms st
     end
   end.
+
+(* ------------------------------------------------------------------ *)
+(* The import of the package itself (selector.py:91-107)               *)
+
+(* what importlib.import_module(autonomous_pkgname) does -- as observed *)
+Inductive pkg_import :=
+| ImportRaisesImportError (ename : option string)  (* ImportError (ModuleNotFoundError included); e.name *)
+| ImportRaisesOther                                (* any other Exception out of the package's code *)
+| Imported (mods : list module).                   (* the package object; glob order of its *.py *)
+
+(* autonomous_pkgname.split(".")[0] *)
+Fixpoint top_component (s : string) : string :=
+  match s with
+  | EmptyString => EmptyString
+  | String c r => if Ascii.eqb c "."%char then EmptyString else String c (top_component r)
+  end.
+
+(* e.name in [autonomous_pkgname, autonomous_pkgname.split(".")[0]]
+   (e.name is None for an ImportError raised without a name: in no list of str) *)
+Definition names_the_package (pkgname : string) (ename : option string) : bool :=
+  match ename with
+  | Some n => (n =? pkgname) || (n =? top_component pkgname)
+  | None => false
+  end.
+
+(* try: import_module(pkgname)
+   except ImportError as e: if e.name not in [...]: <policy of a failing import>; else warning only
+   except Exception: <policy of a failing import>
+   else: glob *)
+Definition import_outcome (pkgname : string) (i : pkg_import) : package :=
+  match i with
+  | ImportRaisesImportError ename =>
+    if names_the_package pkgname ename then PkgMissing else PkgInitFails
+  | ImportRaisesOther => PkgInitFails
+  | Imported ms => PkgPresent ms
+  end.
+
+(* AutonomousModeSelector(autonomous_pkgname) *)
+Definition init (fms : bool) (pkgname : string) (i : pkg_import) : outcome :=
+  discover fms (import_outcome pkgname i).
 
 (* what the dashboard shows *)
 Definition option_names (r : selector) : list string := map fst (options (chooser_of r)).
